@@ -454,3 +454,22 @@ def main(fn, pid, level='model_checking'):
         log('MACHINERY FAILURE:', e)
         rc = 2
     sys.exit(rc)
+
+
+# --------------------------------------------------------------------------- Apalache (unbounded laws, extra)
+def apalache_laws(module, inv='Laws', timeout=300):
+    """checks `inv` over Init (length 0) with Apalache, i.e. for ALL integer values; returns 'NoError' / 'Error' / 'unavailable'"""
+    out = '%s/apalache/%s' % (BUILD, uuid.uuid4().hex[:10])
+    os.makedirs(out, exist_ok=True)
+    try:
+        p = subprocess.run(['timeout', str(timeout), 'apalache-mc', 'check', '--length=0', '--inv=' + inv, '--out-dir=' + out, module + '.tla'],
+                           cwd=SPEC, capture_output=True, text=True)
+    except FileNotFoundError:
+        return 'unavailable'
+    finally:
+        shutil.rmtree(out, ignore_errors=True)
+    if 'The outcome is: NoError' in p.stdout:
+        return 'NoError'
+    if 'The outcome is: Error' in p.stdout:
+        return 'Error'
+    return 'unavailable'
